@@ -12,6 +12,7 @@ Tie (E1), five kinds of cases, every one executed on the real backends and compa
   vec    : (traj kind) two structural classes x 2-4 units with a dense edge block (matvec) and sparse edges (indexed assignment), compiled
            vectorized for default/torch/jax and scalar for default/fortran; delayed variants (roll buffer) compared across backends only
   rollnet: user-level roll(x, n) with positive / negative literal shifts on shaped vector variables, vectorize=False, four backends
+  cadence: x' = u_k with integer input and DECIMAL step sizes (1e-4 .. 0.3) x multiples 1..40: updates per stored row, row count, time axis
   pop    : PopulationTemplate + Connectivity, plain matrix (matvec) and coupling EdgeTemplate (wsum / broadcast_pre / broadcast_post)
   scipy  : (support, tolerance) adaptive solver on a stiff-ish nonlinear model: no backend may fail alone; values within rtol."""
 import json, os, math
@@ -243,6 +244,29 @@ def impl_rollnet(case):
     finally:
         pyr.reset_pyrates()
 
+def impl_cadence(case):
+    """x' = u_k (integer-valued input) with DECIMAL step sizes passed as literals: the stored rows are (partial sums of u) * dt, so
+    round(2*x/dt) identifies the number of updates per stored row whatever the rounding of the decimal arithmetic"""
+    import numpy as np, pyr
+    from pyrates import OperatorTemplate, NodeTemplate, CircuitTemplate
+    b = case["backend"]
+    pyr.reset_pyrates()
+    try:
+        op = OperatorTemplate(name="kop", path=None, equations=["x' = inp"], variables={"x": "output(0.0)", "inp": "input(0.0)"})
+        net = CircuitTemplate(name="net", path=None, nodes={"p": NodeTemplate(name="p", path=None, operators=[op])})
+        dt, dts, T = float(case["dt"]), float(case["dts"]), float(case["T"])          # literals, as a user writes them
+        res = net.run(T, dt, sampling_step_size=dts, solver=case["solver"], backend=b, vectorize=case["vectorize"],
+                      inputs={"p/kop/inp": np.array([float(u) for u in case["u"]])}, outputs={"x": "p/kop/x"}, float_precision="float64",
+                      in_place=False, file_name=_fname("k"), clear=True, verbose=False)
+        x = np.asarray(res.values, dtype=np.float64).reshape(-1)
+        sc = 2.0 * x / dt
+        r = np.round(sc)
+        return dict(rows2=[int(v) for v in r], resid=float(np.max(np.abs(sc - r))) if len(x) else 0.0, n=int(len(x)),
+                    index=[repr(float(t)) for t in res.index],
+                    quotients=[repr(dts / dt), repr(T / dt), repr(T / dts)])
+    finally:
+        pyr.reset_pyrates()
+
 def impl_consts(case):
     """x' = pi*k with k a power of two: the value of the named constant on each backend, bit for bit"""
     import numpy as np, pyr
@@ -428,7 +452,7 @@ def impl_hooks(case):
     return out
 
 def impl(case):
-    return {"interp": impl_interp, "net": impl_net, "traj": impl_traj, "hooks": impl_hooks, "pop": impl_pop, "rollnet": impl_rollnet, "consts": impl_consts}[case["kind"]](case)
+    return {"interp": impl_interp, "net": impl_net, "traj": impl_traj, "hooks": impl_hooks, "pop": impl_pop, "rollnet": impl_rollnet, "consts": impl_consts, "cadence": impl_cadence}[case["kind"]](case)
 
 # =============================================================================================== generators
 def dy(rng, lo, hi, den):
@@ -743,6 +767,27 @@ gen_pop_model = _until(_gen_pop_model, pop_exact)          # resample until floa
 gen_net_model = _until(_gen_net_model, net_exact)
 gen_rollnet = _until(_gen_rollnet, rollnet_exact)
 
+DEC_DT = ["0.0001", "0.001", "0.01", "0.025", "0.05", "0.1", "0.3"]
+
+def gen_cadence(rng, want_inexact):
+    """decimal step size x integer multiple 1..40; want_inexact: the float quotient float(dts)/float(dt) is not the integer itself"""
+    from decimal import Decimal
+    while True:
+        dt = rng.choice(DEC_DT); m = rng.randint(1, 40); rows = rng.randint(3, 4)
+        dts = str(Decimal(dt) * m); T = str(Decimal(dt) * m * rows)
+        if (float(dts) / float(dt) != float(m)) != want_inexact:
+            continue
+        steps = m * rows
+        return dict(kind="cadence", dt=dt, dts=dts, T=T, m=m, rows=rows, u=[rng.randint(1, 3) for _ in range(steps + m + 2)])
+
+def cadence_class(case):
+    """the code rounds FLOAT quotients; the model uses the exact rationals.  -> (agree?, float cadence, exact cadence)"""
+    import numpy as np
+    dt, dts, T = float(case["dt"]), float(case["dts"]), float(case["T"])
+    fl = (int(np.round(T / dt)), int(np.round(T / dts)), int(np.round(dts / dt)))
+    ex = (case["m"] * case["rows"], case["rows"], case["m"])
+    return fl == ex, fl, ex
+
 def gen_hooks(rng, backend):
     nv = rng.randint(1, 4)
     v = list(range(1, rng.randint(2, 7)))
@@ -819,6 +864,13 @@ def generate(ctx):
         m = gen_rollnet(rng)
         for b in PY_BACKENDS + (["fortran"] if i < n_roll_f else []):
             cases.append(dict(m, backend=b, mid=f"roll{i}"))
+    # non-dyadic step sizes: the number of updates per stored row on every fixed-step loop
+    n_cad, n_cad_f = (10, 1) if q else (80, 6)
+    for i in range(n_cad):
+        m = gen_cadence(rng, want_inexact=(i % 2 == 0))
+        for b in PY_BACKENDS + (["fortran"] if i < n_cad_f else []):
+            for sv in SOLVERS[b]:
+                cases.append(dict(m, backend=b, solver=sv, vectorize=(b != "fortran" and i % 3 == 0), mid=f"cad{i}"))
     # named constants: pi on every backend, bit for bit
     for b in PY_BACKENDS + ["fortran"]:
         cases.append(dict(kind="consts", backend=b, mid="consts", ks=[str(Fr(2) ** rng.randint(-6, 6)) for _ in range(3)]))
@@ -856,6 +908,8 @@ def nontrivial(case):
         return any(sh % case["n"] != 0 for sh in case["shifts"])
     if k == "consts":
         return True
+    if k == "cadence":
+        return case["m"] >= 2
     if k == "traj":
         return case["steps"] >= 2 and (case["backend"] != "default" or case["solver"] != "euler" or case["vectorize"])
     if k == "hooks":
@@ -899,6 +953,14 @@ Definition l_okI (e : backend * (Qc * Qc * Qc) * (Z * Z * Z) * row * row * (row 
   let '(b, (a, k, g), (n1, n2, n3), x, z, o) := e in pair_eqb (roll_net_deriv (roll_of b) a k g n1 n2 n3 x z) o.
 Definition l_okS (e : backend * (Qc * Qc * Qc) * (Z * Z * Z) * row * row * (row * row)) :=
   let '(b, (a, k, g), (n1, n2, n3), x, z, o) := e in pair_eqb (roll_net_deriv roll a k g n1 n2 n3 x z) o.
+(* cadence: rows scaled by 2/dt are integers; the model runs with dt = 1 *)
+Definition k_rows (l : list row) : list Qc := map (fun r => Qcmult two (nth 0 r (Q2Qc 0))) l.
+Definition k_sys (u : list Qc) : linsys := {| mat := [[Q2Qc 0]]; inw := [Q2Qc 1]; usamp := u |}.
+Definition k_okI (e : backend * solver * list Qc * nat * nat * list Qc) :=
+  let '(b, sv, u, steps, ss, o) := e in row_eqb (k_rows (run_impl b sv (k_sys u) 1%Qc steps ss [Q2Qc 0])) o.
+Definition k_okS (e : backend * solver * list Qc * nat * nat * list Qc) :=
+  let '(b, sv, u, steps, ss, o) := e in row_eqb (k_rows (run_spec sv (k_sys u) 1%Qc steps ss [Q2Qc 0])) o.
+Definition k_guard (e : backend * solver * list Qc * nat * nat * list Qc) := let '(b, sv, u, steps, ss, o) := e in heun_time_free b sv (k_sys u).
 (* named constants *)
 Definition c_okI (e : backend * Qc * Qc) := let '(b, k, o) := e in qeq (Qcmult k (backend_pi b)) o.
 Definition c_okS (e : backend * Qc * Qc) := let '(b, k, o) := e in qeq (Qcmult k pi_f64) o.
@@ -960,6 +1022,11 @@ def entries(case, out):
         for pt, o in zip(case["points"], out["outs"]):
             st = clist([f"({cq(x)}, {cq(v)})" for x, v in pt["state"]])
             es.append(("N", f"({cnet(case, pt['k'])}, {st}, {crow(o)})"))
+    elif k == "cadence":
+        agree, fl, ex = cadence_class(case)
+        if agree and "rows2" in out:        # the model's cadence is the exact-rational one; compared only where the float quotients round to it
+            sv = "Euler" if case["solver"] == "euler" else "Heun"
+            es.append(("K", f"({BK[case['backend']]}, {sv}, {crow([str(u) for u in case['u']])}, {ex[0]}, {ex[2]}, {crow([str(v) for v in out['rows2']])})"))
     elif k == "consts":
         for kk, o in zip(case["ks"], out["outs"]):
             es.append(("C" if case.get("const", "pi") == "pi" else "CE", f"({BK[case['backend']]}, {cq(kk)}, {cq(o)})"))
@@ -1009,7 +1076,7 @@ def entries(case, out):
 
 STREAMS = {  # stream -> (okI, okS, guard or None)
     "I": ("i_okI", "i_okS", "i_guard"), "R": ("r_okI", "r_okS", None), "N": ("n_ok", "n_ok", None),
-    "T": ("t_okI", "t_okS", "t_guard"), "P": ("p_okI", "p_okS", None), "X": ("x_ok", "x_ok", None), "L": ("l_okI", "l_okS", None), "C": ("c_okI", "c_okS", "c_guard"), "CE": ("ce_ok", "ce_ok", None), "H1": ("h_idx", "h_idx", None), "H2": ("h_rngI", "h_rngS", None),
+    "T": ("t_okI", "t_okS", "t_guard"), "P": ("p_okI", "p_okS", None), "X": ("x_ok", "x_ok", None), "L": ("l_okI", "l_okS", None), "C": ("c_okI", "c_okS", "c_guard"), "K": ("k_okI", "k_okS", "k_guard"), "CE": ("ce_ok", "ce_ok", None), "H1": ("h_idx", "h_idx", None), "H2": ("h_rngI", "h_rngS", None),
     "H3": ("h_var", "h_var", None), "H4": ("h_roll", "h_roll", None), "H5": ("h_shiftI", "h_shiftS", None)}
 
 def model_compare(ctx, cases, outs, tag):
@@ -1050,6 +1117,22 @@ def structural_problems(cases, outs):
         if c["kind"] != "net" or not isinstance(o, dict) or "names" not in o:
             continue
         by_mid.setdefault((c["mid"], c["precision"]), []).append(i)
+    cad = {}
+    for i, (c, o) in enumerate(zip(cases, outs)):
+        if c["kind"] == "cadence" and isinstance(o, dict) and "rows2" in o:
+            if o["resid"] > 1e-6 or o["n"] != c["rows"]:
+                bad.add(i)                          # not (integer sums) * dt, or a wrong number of stored rows
+            cad.setdefault(c["mid"], []).append(i)
+    for grp in cad.values():
+        ref = grp[0]
+        for i in grp[1:]:
+            if outs[i]["index"] != outs[ref]["index"] or outs[i]["n"] != outs[ref]["n"]:
+                bad.add(i)                          # the time axis must be the same on every backend, bit for bit
+        for sv in ("euler", "heun"):                # same solver: the same updates per stored row on every backend (jax heun aside: D16)
+            same = [i for i in grp if cases[i]["solver"] == sv and not (sv == "heun" and cases[i]["backend"] == "jax")]
+            for i in same[1:]:
+                if outs[i]["rows2"] != outs[same[0]]["rows2"]:
+                    bad.add(i)
     for grp in by_mid.values():
         ref = outs[grp[0]]
         for i in grp[1:]:
@@ -1069,6 +1152,10 @@ def support_compare(ctx, cases, outs):
                 for a, b in zip(r32, r64):
                     n32 += 1
                     worst32 = max(worst32, abs(float(Fr(a)) - float(Fr(b))) / max(1.0, abs(float(Fr(b)))))
+    cad = [c for c in cases if c["kind"] == "cadence"]
+    notes["cadence_cases"] = len(cad)
+    notes["cadence_float_quotient_not_integral"] = sum(1 for c in cad if float(c["dts"]) / float(c["dt"]) != float(c["m"]))
+    notes["cadence_float_vs_exact_rounding_disagree"] = sum(1 for c in cad if not cadence_class(c)[0])      # would be a finding about the code
     notes["float32_values"] = n32; notes["float32_max_rel_err"] = worst32; notes["float32_tolerance"] = 1e-5
     wg, worstw = {}, 0.0
     for c, o in zip(cases, outs):
@@ -1158,6 +1245,7 @@ def check(ctx):
         cases = corpus + generate(ctx)
     outs, badI, badS, gfalse, crashed, notes = run_cases(ctx, cases, "main")
     guard_viol = {i: ["heun_time_free"] for i in gfalse if cases[i]["kind"] == "traj"}
+    guard_viol.update({i: ["heun_time_free"] for i in gfalse if cases[i]["kind"] == "cadence"})
     guard_viol.update({i: ["fortran_pi_free"] for i in gfalse if cases[i]["kind"] == "consts" and cases[i].get("const", "pi") == "pi"})
     kinds = {}
     for c in cases:
@@ -1220,5 +1308,8 @@ def check(ctx):
                                 "D61 (repaired): torch compiles coupling EdgeTemplates since fix_D61; corpus/C02/D61_torch_wsum.json is the regression case (torch rows = Spec rows)",
                                 "D108 (repaired, switch Backends.fixed_fortran_pi = true): the Fortran module constant PI is numpy.pi bit for bit; corpus/C02/reg_D108_fortran_pi.json "
                                 "is the regression case; D111 (repaired): the Fortran module declares E = exp(1.0d0) = numpy.e bit for bit, regression case corpus/C02/reg_D111_fortran_E.json",
+                                "cadence stream: decimal step sizes are passed as literals; the model's cadence is round_half_even of the EXACT quotients (C02_cadence_multiple), the code "
+                                "rounds the float quotients: compared with the model only where both agree (disagreements are counted in support.cadence_float_vs_exact_rounding_disagree; "
+                                "none occur for integer multiples), and always across backends (rows scaled by 2/dt, number of rows, time axis bit for bit)",
                                 "delayed edges: no Spec in this property (C09); only exact agreement default = torch = fortran, vectorized = scalar, and the jax refusal are checked",
                                 "IEEE rounding is outside the model: the model computes in Qc"])
